@@ -27,7 +27,34 @@ type Box struct {
 	Depth  int    `json:"max_depth"`      // A: depth bound. B: safety cap on path length
 	MaxDev int    `json:"max_deviations"` // B only
 	Kinds  uint32 `json:"-"`              // enabled driver event kinds (bit per ev*)
+	Devs   uint32 `json:"-"`              // B: event kinds that may be used as deviations (0 = all)
 	Share  int    `json:"time_share"`
+
+	LeaderPropose bool     `json:"propose_at_leader_only,omitempty"`
+	KindNames     []string `json:"driver_events"`
+	DevNames      []string `json:"deviation_events,omitempty"`
+}
+
+func (b *Box) finish() *Box {
+	if b.Mode == "B" && b.Devs == 0 {
+		b.Devs = kinds(evDeliver, evDrop, evDup, evCampaign, evPropose, evCrash, evRestart, evIsolate)
+	}
+	for k := uint8(0); k < evKinds; k++ {
+		if b.has(k) {
+			b.KindNames = append(b.KindNames, evNames[k])
+		}
+		if b.Mode == "B" && b.Devs&(1<<k) != 0 && (k <= evDup || b.has(k)) {
+			if (k == evDup && b.Bud.Dups == 0) || (k == evDrop && b.Bud.Drops == 0) {
+				continue
+			}
+			n := evNames[k]
+			if k == evDeliver {
+				n = "deliver a message other than the oldest"
+			}
+			b.DevNames = append(b.DevNames, n)
+		}
+	}
+	return b
 }
 
 func kinds(ks ...uint8) uint32 {
@@ -53,6 +80,9 @@ func (b *Box) candidates(c *cluster, dev int) []cand {
 		for i := range c.nodes {
 			n := uint8(i + 1)
 			for _, k := range []uint8{evCampaign, evPropose, evHeartbeat, evCrash, evRestart, evCompact, evExpire} {
+				if k == evPropose && b.LeaderPropose && !c.nodes[i].isLeader() {
+					continue
+				}
 				if b.has(k) && only&(1<<k) != 0 {
 					out = append(out, cand{Event{K: k, N: n}, cost})
 				}
@@ -60,6 +90,12 @@ func (b *Box) candidates(c *cluster, dev int) []cand {
 			if b.has(evConf) && only&(1<<evConf) != 0 {
 				for v := uint16(0); v < ccVariants; v++ {
 					out = append(out, cand{Event{K: evConf, N: n, A: v}, cost})
+				}
+			}
+			if b.has(evIsolate) && only&(1<<evIsolate) != 0 {
+				out = append(out, cand{Event{K: evIsolate, N: n}, cost})
+				if i == 0 {
+					out = append(out, cand{Event{K: evIsolate, N: 0}, cost})
 				}
 			}
 			if b.has(evTransfer) && only&(1<<evTransfer) != 0 {
@@ -107,15 +143,17 @@ func (b *Box) candidates(c *cluster, dev int) []cand {
 	}
 	for i := range c.pool {
 		s := c.pool[i].seq
-		if i > 0 && !bytes.Equal(c.pool[i].enc, c.pool[0].enc) {
+		if i > 0 && !bytes.Equal(c.pool[i].enc, c.pool[0].enc) && b.Devs&(1<<evDeliver) != 0 {
 			out = append(out, cand{Event{K: evDeliver, A: s}, 1})
 		}
-		out = append(out, cand{Event{K: evDrop, A: s}, 1})
-		if b.Bud.Dups > 0 {
+		if b.Devs&(1<<evDrop) != 0 && b.Bud.Drops > 0 {
+			out = append(out, cand{Event{K: evDrop, A: s}, 1})
+		}
+		if b.Bud.Dups > 0 && b.Devs&(1<<evDup) != 0 {
 			out = append(out, cand{Event{K: evDup, A: s}, 1})
 		}
 	}
-	drivers(1, kinds(evCampaign, evPropose, evCrash, evRestart))
+	drivers(1, b.Devs&kinds(evCampaign, evPropose, evCrash, evRestart, evIsolate))
 	return out
 }
 
@@ -186,6 +224,8 @@ type workerViol struct {
 	Kind   string
 	Detail string
 	Func   string
+	Bud    *Budget // set when the path ends with a completion suffix run under relaxed budgets
+	Note   string
 }
 
 type stateRes struct {
@@ -237,6 +277,8 @@ type expander struct {
 	validateEvery int
 	expanded      int
 	validated     int
+	lookahead     int // states in which electableWithoutCommitted held
+	completions   int // completion suffixes tried
 }
 
 // one memo per worker process and box
@@ -324,6 +366,7 @@ func worker(tb []byte, progress func()) []byte {
 	w.u32(uint32(workerSim.Thaws - before.Thaws))
 	w.u32(uint32(workerSim.ThawFeeds - before.ThawFeeds))
 	w.u32(uint32(x.validated))
+	w.u32(uint32(x.lookahead))
 	vb, _ := json.Marshal(x.viols)
 	w.u32(uint32(len(vb)))
 	w.b = append(w.b, vb...)
@@ -396,6 +439,18 @@ func (x *expander) expand(s *taskState, ref int32, progress func()) stateRes {
 				}
 				continue // poisoned: not expanded
 			}
+			{
+				if id, idx := d.electableWithoutCommitted(); id != 0 {
+					x.lookahead++
+					if x.completions < 64 {
+						x.completions++
+						if v := x.complete(d, id, idx, append(append([]Event(nil), path...), cd.ev)); v != nil {
+							x.viols = append(x.viols, *v)
+							continue
+						}
+					}
+				}
+			}
 			h2, body2 := d.key()
 			if bytes.Equal(body, body2) {
 				continue // nothing but a budget counter changed: dominated by the parent
@@ -428,7 +483,77 @@ func (x *expander) expand(s *taskState, ref int32, progress func()) stateRes {
 	}
 }
 
-type simStats struct{ Execs, Hits, Thaws, ThawFeeds, Validated int }
+type simStats struct{ Execs, Hits, Thaws, ThawFeeds, Validated, Lookahead int }
+
+// complete is a goal-directed suffix: node `id` lacks committed entry `idx` but no voting rule
+// protects against it being elected, so try to elect it — lose everything in flight, heal the
+// partition, restart whoever is down, let it campaign (a few times: it may first have to
+// overtake the others' terms) with FIFO delivery. The suffix runs under relaxed term / drop
+// budgets, which are recorded with the counterexample. Only a genuine invariant violation on
+// the resulting concrete path is reported.
+func (x *expander) complete(d *cluster, id, idx uint64, path []Event) *workerViol {
+	bud := *d.bud
+	bud.MaxTerm += 4
+	bud.Drops += len(d.pool) + 1
+	bud.Crashes += 1
+	c := d.clone()
+	c.bud = &bud
+	var suffix []Event
+	var hit *workerViol
+	apply := func(e Event) bool {
+		n := c.step(e)
+		if n == nil {
+			return false
+		}
+		c = n
+		suffix = append(suffix, e)
+		if len(c.viol) > 0 && hit == nil {
+			v := c.viol[0]
+			hit = &workerViol{Path: append(append([]Event(nil), path...), suffix...), Kind: v.Kind, Detail: v.Detail, Func: v.Func, Bud: &bud,
+				Note: fmt.Sprintf("found by look-ahead: after %d events node %d lacked committed entry %d while being electable; the last %d events drive it to leadership under relaxed budgets (max_term %d, drops %d, crashes %d)",
+					len(path), id, idx, len(suffix), bud.MaxTerm, bud.Drops, bud.Crashes)}
+		}
+		return true
+	}
+	for len(c.pool) > 0 && hit == nil {
+		if !apply(Event{K: evDrop, A: c.pool[0].seq}) {
+			return nil
+		}
+	}
+	if c.iso != 0 {
+		apply(Event{K: evIsolate, N: 0})
+	}
+	for _, n := range c.nodes {
+		if !n.alive {
+			apply(Event{K: evRestart, N: uint8(n.id)})
+			for len(c.pool) > 0 && hit == nil {
+				apply(Event{K: evDeliver, A: c.pool[0].seq})
+			}
+		}
+	}
+	if c.node(id).isLeader() {
+		// a stale leader does not campaign: restart it (it keeps its persisted log)
+		apply(Event{K: evCrash, N: uint8(id)})
+		apply(Event{K: evRestart, N: uint8(id)})
+		for len(c.pool) > 0 && hit == nil {
+			apply(Event{K: evDeliver, A: c.pool[0].seq})
+		}
+	}
+	for round := 0; round < 4 && hit == nil; round++ {
+		if !apply(Event{K: evCampaign, N: uint8(id)}) {
+			break
+		}
+		for steps := 0; len(c.pool) > 0 && hit == nil && steps < 80; steps++ {
+			if !apply(Event{K: evDeliver, A: c.pool[0].seq}) {
+				break
+			}
+		}
+		if c.node(id).isLeader() {
+			break
+		}
+	}
+	return hit
+}
 
 func decodeResult(out []byte) ([]stateRes, []rec, []workerViol, simStats) {
 	r := &rd{b: out}
@@ -451,7 +576,7 @@ func decodeResult(out []byte) ([]stateRes, []rec, []workerViol, simStats) {
 		rc.expanded = r.u8() == 1
 	}
 	var ss simStats
-	ss.Execs, ss.Hits, ss.Thaws, ss.ThawFeeds, ss.Validated = int(r.u32()), int(r.u32()), int(r.u32()), int(r.u32()), int(r.u32())
+	ss.Execs, ss.Hits, ss.Thaws, ss.ThawFeeds, ss.Validated, ss.Lookahead = int(r.u32()), int(r.u32()), int(r.u32()), int(r.u32()), int(r.u32()), int(r.u32())
 	vl := int(r.u32())
 	var viols []workerViol
 	json.Unmarshal(r.b[r.p:r.p+vl], &viols)
